@@ -9,4 +9,5 @@ CONSTANTS
     MaxCheckouts = 0
     InitWs = {}
     InitCache = {}
+    Twins <- TwinsDef
     Prompts = {}
